@@ -50,8 +50,55 @@ def model_strategy(quick):
                                           flags=False, islands=False))
 
 
+F1_XML = ('<mujoco><worldbody><body><joint type="hinge" axis="0 1 0"/><geom size="0.1" pos="0.3 0 0"/><site name="s1" pos="0.3 0 0.1"/></body>'
+          '<body pos="1 0 0"><joint type="hinge" axis="0 1 0"/><geom size="0.1" pos="-0.3 0 0"/><site name="s2" pos="-0.3 0 0.2"/></body></worldbody>'
+          '<tendon><spatial armature="0.5"><site site="s1"/><site site="s2"/></spatial></tendon></mujoco>')
+F2_XML = '<mujoco><worldbody><body><joint type="hinge" axis="0 1 0" armature="0.3"/><geom size="0.1" pos="0.3 0 0"/></body></worldbody></mujoco>'
+
+
+def probes(ck, lib):
+  """Deterministic probes for the reported deviations that the generated stream excludes by construction."""
+  from vf import mj
+  # F1: tendon armature coupling two kinematic trees: documented kinetic energy 1/2 a (J v)^2 needs M_01 = a J_0 J_1
+  try:
+    m = lib.model_from_xml(F1_XML)
+  except mj.MjError:
+    m = None          # a compiler that rejects such tendons has nothing to truncate
+  if m is not None:
+    d = lib.make_data(m)
+    d.qpos[:] = [0.3, -0.4]
+    lib.mj_forward(m, d)
+    M = lib.fullM(m, d)
+    J = np.array(d.ten_J)[:2]
+    want = 0.5 * J[0] * J[1]
+    if abs(want) > 1e-6 and abs(M[0, 1] - want) > 1e-9:
+      ck.violation('tendon armature across two trees: mj_fullM[0,1] = %.12g, documented a*J0*J1 = %.12g (coupling dropped: M keeps the '
+                   'tree sparsity pattern only)' % (M[0, 1], want), dict(xml=F1_XML, qpos=[0.3, -0.4]),
+                   bucket='probe-tendon-armature-cross-branch', fingerprint='C06:tendon-armature-cross-branch-truncated')
+    ck.label('probe:F1')
+  # F2: statement "Newton-Euler with an acceleration a equals M a + bias" with joint armature
+  m = lib.model_from_xml(F2_XML)
+  d = lib.make_data(m)
+  d.qpos[:] = [0.2]
+  d.qvel[:] = [1.0]
+  lib.mj_forward(m, d)
+  r0, r1 = np.zeros(1), np.zeros(1)
+  lib.mj_rne(m, d, 0, r0)
+  d.qacc[:] = [2.0]
+  lib.mj_rne(m, d, 1, r1)
+  M = lib.fullM(m, d)
+  want = M[0, 0] * 2.0 + r0[0]
+  if abs(r1[0] - want) > 1e-9:
+    ck.violation('mj_rne(flg_acc=1, a=2) = %.12g but M a + mj_rne(0) = %.12g (joint armature 0.3 not included)' % (r1[0], want),
+                 dict(xml=F2_XML, qpos=[0.2], qvel=[1.0], qacc=[2.0]), bucket='probe-rne-armature',
+                 fingerprint='C06:rne-acc-omits-armature')
+  ck.label('probe:F2')
+
+
 def main(ck):
   lib = ck.lib('rel')
+  if not getattr(ck, '_replaying', False):
+    probes(ck, lib)
   worst = {}
 
   cur = {}
